@@ -146,6 +146,17 @@ class UDPMessageDeserializer:
         msg.raw_body = None
         msg.deserializer = None
 
+        try:
+            self._parse_message_body(msg, raw_body)
+        except:
+            # Body couldn't be parsed, leave the message as it was so it
+            # can still be forwarded verbatim.
+            msg._blocks = {}
+            msg.raw_body = raw_body
+            msg.deserializer = weakref.ref(self)
+            raise
+
+    def _parse_message_body(self, msg: Message, raw_body: bytes):
         if msg.zerocoded:
             raw_body = self.zero_code_expand(raw_body)
 
